@@ -988,9 +988,9 @@ func c22Canon(v reflect.Value, sortInts bool) string {
 	case reflect.String:
 		return strconv.Quote(v.String())
 	case reflect.Int, reflect.Int8, reflect.Int16, reflect.Int32, reflect.Int64:
-		return fmt.Sprintf("%020d", v.Int()+(1<<62)) // fixed width so string order == numeric order
+		return c22Pad20(uint64(v.Int() + (1 << 62))) // fixed width so string order == numeric order
 	case reflect.Uint, reflect.Uint8, reflect.Uint16, reflect.Uint32, reflect.Uint64:
-		return fmt.Sprintf("%020d", v.Uint())
+		return c22Pad20(v.Uint())
 	case reflect.Bool:
 		return strconv.FormatBool(v.Bool())
 	case reflect.Float32, reflect.Float64:
@@ -999,6 +999,15 @@ func c22Canon(v reflect.Value, sortInts bool) string {
 		return "-"
 	}
 	return fmt.Sprintf("?%s", v.Kind())
+}
+
+func c22Pad20(u uint64) string {
+	var buf [20]byte
+	for i := 19; i >= 0; i-- {
+		buf[i] = byte('0' + u%10)
+		u /= 10
+	}
+	return string(buf[:])
 }
 
 // c22Diff compares two dumps, ignoring the listed fields; returns "" when equal.
